@@ -13,7 +13,7 @@ import time
 import z3
 
 from . import theory as T
-from .values import (SV, Ver, DictVal, SetVal, ListVal, PObj, ItemsView, AssignVal, Closure, BoundMethod, ClassRef,
+from .values import (SV, Ver, DictVal, SetVal, ListVal, PObj, ItemsView, Assoc, AssignVal, Closure, BoundMethod, ClassRef,
                      BuiltinClass, Builtin, ModuleRef, SuperRef, SeqIter, Unsupported, PathInfeasible, VerifBug,
                      PyExc, is_num, zreal, zint, is_intlike, Opaque)
 from . import folds as FO
@@ -676,6 +676,23 @@ class Engine:
             return a is None and b is None
         if isinstance(a, str) or isinstance(b, str):
             return isinstance(a, str) and isinstance(b, str) and a == b
+        if isinstance(a, (set, frozenset)) and isinstance(b, (set, frozenset)):
+            # small sets whose members may be symbolic: mutual inclusion, member by member
+            def inc(A, B):
+                cs = []
+                for x in A:
+                    ds = [self.equals(x, y) for y in B]
+                    if any(d is True for d in ds):
+                        continue
+                    ds = [d for d in ds if d is not False]
+                    if not ds:
+                        return [False]
+                    cs.append(z3.Or(*ds))
+                return cs
+            cs = inc(a, b) + inc(b, a)
+            if any(c is False for c in cs):
+                return False
+            return z3.And(*cs) if cs else True
         ka = isinstance(a, tuple) or (isinstance(a, SV) and a.t == "key")
         kb = isinstance(b, tuple) or (isinstance(b, SV) and b.t == "key")
         if isinstance(a, tuple) and isinstance(b, tuple):
@@ -920,11 +937,28 @@ class Engine:
         raise Unsupported("unpack of %r" % (type(v).__name__,))
 
     def st_If(self, s, fr):
+        if self._is_suppressed_warning(s):
+            # `if not suppress_warnings: QUBOVertWarning.warn(msg)`: the ghost list `warned` records what the library
+            # determined (msg), whether or not the caller asked to be told
+            self.warned.append(s.body[0].value.args[0].value)
+            return
         c = self.tobool(self.eval(s.test, fr))
         if self.branch(c):
             self.exec_block(s.body, fr)
         else:
             self.exec_block(s.orelse, fr)
+
+    @staticmethod
+    def _is_suppressed_warning(s):
+        t = s.test
+        if not (isinstance(t, ast.UnaryOp) and isinstance(t.op, ast.Not) and isinstance(t.operand, ast.Name)
+                and t.operand.id == "suppress_warnings" and not s.orelse and len(s.body) == 1):
+            return False
+        b = s.body[0]
+        return (isinstance(b, ast.Expr) and isinstance(b.value, ast.Call) and isinstance(b.value.func, ast.Attribute)
+                and b.value.func.attr == "warn" and isinstance(b.value.func.value, ast.Name)
+                and b.value.func.value.id == "QUBOVertWarning" and len(b.value.args) == 1
+                and isinstance(b.value.args[0], ast.Constant) and isinstance(b.value.args[0].value, str))
 
     def st_FunctionDef(self, s, fr):
         outer = fr.closure.name if fr.closure else "?"
@@ -1010,6 +1044,25 @@ class Engine:
             return list(it)
         if isinstance(it, SeqIter) and it.kind == "concrete":
             return list(it.data)
+        if isinstance(it, ItemsView) and "size" in it.ver.cache and not self.spec:
+            # a dict whose number of items is fixed by the path condition (the code tested len(d) == n, n <= 3):
+            # its items are the n enumerated ones (lemma L11-enum)
+            from . import folds as FO
+            sz = it.ver.cache["size"]
+            known = getattr(it.ver, "exact_size", None)
+            if known is None:
+                for n in range(0, 4):
+                    if self.feasible(sz == n) and not self.feasible(sz != n):
+                        known = it.ver.exact_size = n
+                        break
+            if known is not None:
+                out = []
+                for i in range(known):
+                    k, v = FO.nth_item(self, it.ver, i)
+                    ks = SV(k, "key" if it.ver.ksort == T.Key else "label")
+                    vs = SV(v, "real" if it.ver.vsort == T.Real else "int")
+                    out.append({"keys": ks, "values": vs, "items": (ks, vs)}[it.mode])
+                return out
         return None
 
     def loop_spec(self, fr, ordinal):
@@ -1671,6 +1724,28 @@ class Engine:
             if idx not in obj:
                 raise PyExc("KeyError")
             return obj[idx]
+        if isinstance(obj, Assoc):
+            conds = [self.equals(k, idx) for k, _ in obj.pairs]
+            zc = [c if not isinstance(c, bool) else z3.BoolVal(c) for c in conds]
+            if not self.spec and not self.branch(z3.Or(*zc) if zc else z3.BoolVal(False)):
+                raise PyExc("KeyError")
+            vals = [v for _, v in obj.pairs]
+            res = vals[0]
+            for c, v in list(zip(zc, vals))[1:]:          # later entries win, as in a dict built left to right
+                res = self.ite_value(c, v, res)
+            return res
+        if isinstance(obj, ItemsView):
+            # tuple(d.keys())[i] / tuple(d.values())[i] / tuple(d.items())[i]: the i-th item in iteration order
+            if not (obj.snapshot and isinstance(idx, int) and 0 <= idx <= 3):
+                raise Unsupported("subscript of a dict view")
+            from . import folds as FO
+            sz = FO.fold(self, obj.ver, "size")
+            if not self.spec and not self.branch(sz > idx):
+                raise PyExc("IndexError")
+            k, v = FO.nth_item(self, obj.ver, idx)
+            ks = SV(k, "key" if obj.ver.ksort == T.Key else "label")
+            vs = SV(v, "real" if obj.ver.vsort == T.Real else "int")
+            return {"keys": ks, "values": vs, "items": (ks, vs)}[obj.mode]
         if isinstance(obj, (tuple, list, str)):
             if isinstance(idx, int):
                 if not -len(obj) <= idx < len(obj):
@@ -1700,6 +1775,13 @@ class Engine:
                 return SV(T.zval(i), "real")
             return SV(T.aval(i), "real")
         raise Unsupported("subscript of %s" % type(obj).__name__)
+
+    def ite_value(self, c, a, b):
+        if isinstance(a, SV) and isinstance(b, SV) and a.t == b.t and a.e.sort() == b.e.sort():
+            return SV(z3.If(c, a.e, b.e), a.t)
+        if (isinstance(a, SV) or is_num(a)) and (isinstance(b, SV) or is_num(b)):
+            return SV(z3.If(c, zreal(a), zreal(b)), "real")
+        raise Unsupported("if-then-else of %s / %s" % (type(a).__name__, type(b).__name__))
 
     def setitem(self, obj, idx, v):
         if isinstance(obj, PObj):
